@@ -168,7 +168,7 @@ PLANS = {
         ],
     },
     "C14": {
-        "clauses": ["C14_Stutter", "C01_Exact", "C02_Carried"],
+        "clauses": ["C14_Stutter", "C01_Exact", "C02_Carried", "C02_AbortNoop"],
         "expect_actions": {"any": ["ReadOnly", "CkptRepeat", "Ckpt", "Commit"]},
         "quick": [
             dict(name="decorated", consts=consts(alphabet=DECORATED, steps=6, commits=2, uid=4, lines=3),
